@@ -2,6 +2,7 @@ package raftsim
 
 import (
 	"fmt"
+	"github.com/lni/dragonboat/v4/raftio"
 	"hash/fnv"
 	"os"
 	"regexp"
@@ -669,6 +670,60 @@ func (m *monitors) recordVote(voter, term, to uint64) {
 		return
 	}
 	m.votes[k] = to
+}
+
+// onRecoveredFromRealStore: a replica whose raft state lives in a real log store has been
+// restarted. What the reopened store reports must be what the replica had handed to
+// SaveRaftState (the shadow kept next to the store): the hard state - in particular a vote that
+// was granted and announced (C03: one vote per term also across restarts; C04) - and the log
+// (C02: a suffix that was overwritten must not come back, nothing acknowledged may be missing).
+func (m *monitors) onRecoveredFromRealStore(r *replica, rs raftio.RaftState) {
+	m.count("restarts_compared_with_real_store", 1)
+	sh := r.store
+	if sh.hasState {
+		if rs.State.Term < sh.state.Term {
+			what := fmt.Sprintf("replica %d restarts with durable term %d, it had saved term %d", r.id, rs.State.Term, sh.state.Term)
+			m.violation("C03", "term-lost-across-restart", what)
+			m.violation("C04", "term-lost-across-restart", what)
+		} else if rs.State.Term == sh.state.Term && rs.State.Vote != sh.state.Vote {
+			what := fmt.Sprintf("replica %d restarts with vote %d for term %d, it had saved vote %d for that term", r.id, rs.State.Vote, rs.State.Term, sh.state.Vote)
+			if v, ok := m.votes[[2]uint64{r.id, sh.state.Term}]; ok {
+				what += fmt.Sprintf(" (and announced its vote for %d)", v)
+			}
+			m.violation("C03", "vote-lost-across-restart", what)
+			m.violation("C04", "vote-lost-across-restart", what)
+		}
+	}
+	if !sh.hasMax {
+		return
+	}
+	first, last := rs.FirstIndex, rs.FirstIndex+rs.EntryCount-1
+	if rs.EntryCount == 0 {
+		last = 0
+	}
+	if last != sh.maxIndex && !(rs.EntryCount == 0 && sh.maxIndex <= sh.snapshot.Index) {
+		what := fmt.Sprintf("replica %d restarts with a durable log ending at %d (first %d, %d entries), the log it had saved ends at %d", r.id, last, first, rs.EntryCount, sh.maxIndex)
+		m.violation("C02", "durable-log-differs-after-restart", what)
+		m.violation("C04", "durable-log-differs-after-restart", what)
+		return
+	}
+	if rs.EntryCount > 0 {
+		ents, _, err := sh.real.IterateEntries(nil, 0, sh.shardID, sh.replicaID, first, last+1, 1<<40)
+		if err != nil || uint64(len(ents)) != rs.EntryCount {
+			what := fmt.Sprintf("replica %d restarts: the store reports %d entries from %d, iterating them returns %d (%v)", r.id, rs.EntryCount, first, len(ents), err)
+			m.violation("C02", "durable-log-differs-after-restart", what)
+			m.violation("C04", "durable-log-differs-after-restart", what)
+			return
+		}
+		for _, e := range ents {
+			if want, ok := sh.entries[e.Index]; ok && (want.Term != e.Term || string(want.Cmd) != string(e.Cmd)) {
+				what := fmt.Sprintf("replica %d restarts with entry %d of term %d, the entry it had saved last at that index has term %d", r.id, e.Index, e.Term, want.Term)
+				m.violation("C02", "durable-log-differs-after-restart", what)
+				m.violation("C04", "durable-log-differs-after-restart", what)
+				return
+			}
+		}
+	}
 }
 
 // persistBeforeSend (C04 at simulator level): what a message tells other
